@@ -16,7 +16,7 @@ from harness.dsec_common import *  # noqa: F403
 from harness.cases import C16
 
 PROPERTY = "C18"
-RULE = ("plain frames: 14 valid APDUs x {TDataGroup,TDataTagGroup,TDataBroadcast} x keyed/unkeyed x Data Secure on/off; "
+RULE = ("plain frames: 14 valid APDUs x {TDataGroup,TDataTagGroup,TDataBroadcast} x keyed/unkeyed x Data Secure on/off x claimed sender {known, the interface's own address, unknown, 0.0.0}; "
         "authenticated-malformed: APDUs of length 0 and 1, all 1024 APCI codes with payload lengths 0,1,2,3,5,8,12 "
         "(thorough: more) kept when APCI.from_knx refuses them, both algorithms; outgoing to keyed/unkeyed/individual; "
         "random junk in SCF/ASDU; non-trivial = distinct cases")
@@ -29,6 +29,7 @@ VALID = ["0000", "0040", "0081", "0080ff", "004001", "0080aabbccdd", "0100", "01
 KEY = bytes(range(1, 17))
 DST_KEYED, DST_FREE = 0x0A03, 0x0A04
 SRC = 0x1101
+OWN = 0x1234    # current_address of every XKNX the harness builds
 
 
 def classify(apdu: bytes) -> str:
@@ -49,6 +50,11 @@ def generate(rng, tier):
                 for ds in (1, 0):
                     yield {"kind": "plain", "apdu": apdu, "tpci": tp, "keyed": keyed, "ds": ds,
                            "ctrl1": rng.choice([0xBC, 0x94, 0xB0, 0x3C])}
+                    # the claimed sender is an axis too: the interface's own address (a looped-back or spoofed frame), a sender
+                    # missing from the Security Individual Address Table, 0.0.0
+                    for src in (OWN, 0x1FFF, 0):
+                        yield {"kind": "plain", "apdu": apdu, "tpci": tp, "keyed": keyed, "ds": ds, "src": src,
+                               "ctrl1": rng.choice([0xBC, 0x94, 0xB0, 0x3C])}
     # a key table entry with an empty key is treated as "no key" (`if key := table.get(dst)`)
     for apdu in valid[:4]:
         yield {"kind": "emptykey", "apdu": apdu, "dir": "in"}
@@ -128,7 +134,8 @@ def run_impl(c):
         tp = mk_tpci(c["tpci"]).to_knx()
         dst = 0 if c["tpci"][0] == "TDataBroadcast" else (DST_KEYED if c["keyed"] else DST_FREE)
         apdu = unhx(c["apdu"])
-        raw = build_ldata(0x29, (c["ctrl1"] << 8) | 0xE0, SRC, dst, bytes([apdu[0] | tp]) + apdu[1:])
+        src = c.get("src", SRC)
+        raw = build_ldata(0x29, (c["ctrl1"] << 8) | 0xE0, src, dst, bytes([apdu[0] | tp]) + apdu[1:])
         body = f"P {c['apdu']}"
     elif k == "authbad":
         tp = mk_tpci(c["tpci"]).to_knx()
@@ -155,7 +162,7 @@ def run_impl(c):
     else:
         inner = int(classify(unhx(c["apdu"])) == "ok")
         kstr = fmt_keys(keys)
-        line = f"dsec recv {kstr} {SRC}:5 1 {int.from_bytes(raw[2:4], 'big')} {SRC} {dst} {tp} {body} {inner}"
+        line = f"dsec recv {kstr} {SRC}:5 1 {int.from_bytes(raw[2:4], 'big')} {c.get('src', SRC)} {dst} {tp} {body} {inner}"
     return {"out": out + f" q={len(obs['queued'])} issues={len(obs['issues'])} undec={obs['undecoded']}",
             "line": line, "expect": out}
 
